@@ -70,7 +70,7 @@ theorem contNode_sub {accts : List Acct} {groups : List (Nat × List Acct)} {sub
   | keysForPending p q => cases h
 
 section
-variable {accts : List Acct} {groups : List (Nat × List Acct)}
+variable {ex : Bool} {accts : List Acct} {groups : List (Nat × List Acct)}
 
 theorem tokens_split (V : View) (a : Acct) (id : Nat) (r : Acct) :
     tokensV V a id r = contS id r (V.cl a).iqReg + inTransitV V a id r + shownC (V.cl r) id := by
@@ -91,7 +91,7 @@ theorem slotS_erase {l : List (Nat × Cont)} (hn : keysNodup l) {iq : Nat} {k0 :
 /-- the answer to an iq arrived and the continuation `k0` holding the token of `n` was taken out of the registry -/
 theorem Src.ofCont {s : Sys} {x : Acct} {hd : Stanza} {rest : List Stanza} {iq : Nat} {k0 : Cont} {n : Node} {who : Option Acct}
     {c1 : Client}
-    (hA : AInv accts groups (abs s)) (hT : TV accts groups s.submitted (view s)) (hx : x ∈ accts)
+    (hA : AInv accts groups (abs s)) (hT : TV ex accts groups s.submitted (view s)) (hx : x ∈ accts)
     (hq : (view s).outb x = hd :: rest) (hiq : stanzaIq hd = some iq)
     (hplain : ∀ id r, downTok id hd = 0 ∧ nOf id hd = 0 ∧ rcptOut id r hd = 0 ∧ retryDownTok id r hd = 0)
     (hk0 : lookup (getClient s x).iqReg iq = some k0) (hnode : contNode k0 = some (n, who))
